@@ -33,7 +33,7 @@ def snap_sig(root):
     return sha1(json.dumps(sorted((k, v[0], v[1], v[2]) for k, v in s.items())).encode()).hex()
 
 
-def do_op(op, base, target, version, metafile, scratch, plen=1, alt=False):
+def do_op(op, base, target, version, metafile, scratch, plen=1, alt=False, route="lib"):
     """Execute one tool operation; returns a JSON-able signature of its observable result."""
     from .create import create_meta, rest_sig
     try:
@@ -41,7 +41,30 @@ def do_op(op, base, target, version, metafile, scratch, plen=1, alt=False):
             # alt: the class-based creator (other hasher classes) instead of the CLI's assembler
             creator = "TorrentFile" if version == 1 else ("TorrentAssembler", "TorrentFileV2", "TorrentFileHybrid")[
                 0 if not alt else (1 if version == 2 else 2)]
-            st = create_meta({"creator": creator, "version": version, "P": P * plen}, tpath(base, target), metafile)
+            if route == "lib":
+                st = create_meta({"creator": creator, "version": version, "P": P * plen}, tpath(base, target), metafile)
+            else:
+                # through torrentfile.cli.execute: plain, with a tracker flag, or with a configuration
+                # file that names a tracker and a web seed
+                from torrentfile.cli import execute
+                argv = ["create", tpath(base, target), "-o", metafile, "--prog", "0", "--meta-version", str(version),
+                        "--piece-length", str(P * plen)]
+                if route == "clitracker":
+                    argv += ["-a", "http://flag.example/announce"]
+                if route == "cliconfig":
+                    os.makedirs(scratch, exist_ok=True)
+                    ini = os.path.join(scratch, "cfg.ini")
+                    with open(ini, "w") as fh:
+                        fh.write("[config]\nannounce =\n    http://cfg.example/announce\nweb-seed =\n    http://cfg.example/w/\n"
+                                 "comment = from config\n")
+                    argv += ["--config", "--config-path", ini]
+                st = "ok"
+                try:
+                    execute(argv)
+                except SystemExit as ex:
+                    st = "exit:%s" % ex.code
+                except Exception as ex:
+                    st = "exc:" + type(ex).__name__
             if st != "ok":
                 return {"status": st, "sig": ""}
             with open(metafile, "rb") as fh:
@@ -73,10 +96,10 @@ def do_op(op, base, target, version, metafile, scratch, plen=1, alt=False):
     return {"status": "unknown-op", "sig": ""}
 
 
-def fresh(op, base, target, version, metafile, scratch, plen=1, alt=False):
+def fresh(op, base, target, version, metafile, scratch, plen=1, alt=False, route="lib"):
     """The same operation in a brand-new interpreter."""
     req = json.dumps({"op": op, "base": base, "target": target, "version": version, "metafile": metafile,
-                      "scratch": scratch, "plen": plen, "alt": alt})
+                      "scratch": scratch, "plen": plen, "alt": alt, "route": route})
     env = dict(os.environ, PYTHONPATH=VERIF + os.pathsep + REPO, PYTHONDONTWRITEBYTECODE="1", VERIF_REPO=REPO)
     p = subprocess.run([sys.executable, "-c", "from vh.system import fresh_main; fresh_main()"], input=req.encode(),
                        stdout=subprocess.PIPE, stderr=subprocess.PIPE, env=env, timeout=120)
@@ -95,7 +118,7 @@ def fresh_main():
     import logging
     logging.disable(logging.CRITICAL)
     res = do_op(req["op"], req["base"], req["target"], req["version"], req["metafile"], req["scratch"],
-                req.get("plen", 1), req.get("alt", False))
+                req.get("plen", 1), req.get("alt", False), req.get("route", "lib"))
     sys.stdout = real
     print("RESULT " + json.dumps(res))
 
@@ -147,8 +170,9 @@ def run_history(case):
                 mf_fr = os.path.join(scratch_fr, "m.torrent")
                 shutil.copyfile(mf_in, mf_fr)
             alt = (n + case["id"]) % 2 == 1
-            res_fr = fresh(op, base, target, version, mf_fr, scratch_fr, plen, alt)
-            res_in = do_op(op, base, target, version, mf_in, scratch_in, plen, alt)
+            route = stp.get("route", "lib")
+            res_fr = fresh(op, base, target, version, mf_fr, scratch_fr, plen, alt, route)
+            res_in = do_op(op, base, target, version, mf_in, scratch_in, plen, alt, route)
             rec = {"id": rid + n, "group": "none", "sysop": op, "target": target, "version": version,
                    "status": res_in["status"], "sig": res_in["sig"], "fresh_status": res_fr["status"],
                    "fresh_sig": res_fr["sig"], "clauses": ["C09.fresh"]}
